@@ -435,3 +435,58 @@ mod tests {
         }
     }
 }
+
+#[cfg(futures_intrusive_verif)]
+fn verif_addr<T>(p: Option<NonNull<HeapNode<T>>>) -> usize {
+    p.map_or(0, |p| p.as_ptr() as usize)
+}
+
+#[cfg(futures_intrusive_verif)]
+impl<T> HeapNode<T> {
+    /// Verification hook: raw links `[parent, prev, next, first_child]`
+    /// (0 = none)
+    pub fn verif_links(&self) -> [usize; 4] {
+        [
+            verif_addr(self.parent),
+            verif_addr(self.prev),
+            verif_addr(self.next),
+            verif_addr(self.first_child),
+        ]
+    }
+}
+
+#[cfg(futures_intrusive_verif)]
+impl<T> PairingHeap<T> {
+    /// Verification hook: raw root pointer (0 = none)
+    pub fn verif_root(&self) -> usize {
+        verif_addr(self.root)
+    }
+
+    /// Verification hook: visits up to `limit` nodes in pre-order
+    /// (node, then its children from first to last). Read-only.
+    pub fn verif_for_each_preorder(
+        &self,
+        limit: usize,
+        f: &mut dyn FnMut(&HeapNode<T>),
+    ) {
+        unsafe fn visit<T>(
+            node: Option<NonNull<HeapNode<T>>>,
+            budget: &mut usize,
+            f: &mut dyn FnMut(&HeapNode<T>),
+        ) {
+            let mut current = node;
+            while let Some(n) = current {
+                if *budget == 0 {
+                    return;
+                }
+                *budget -= 1;
+                let node_ref = &*(n.as_ptr() as *const HeapNode<T>);
+                f(node_ref);
+                visit(node_ref.first_child, budget, f);
+                current = node_ref.next;
+            }
+        }
+        let mut budget = limit;
+        unsafe { visit(self.root, &mut budget, f) };
+    }
+}
